@@ -276,9 +276,26 @@ def run_case(case, ctx):
                 if not stop_before:
                     ctx.check("cds.translate", isinstance(exc, ValueError) or (lat2 and exc is not None), key=("strict-ambiguous-refused", tname),
                               got=None if exc else str(res), exc=repr(exc)[:120])
+                else:
+                    # documented: truncation stops at the first in-frame stop - the untranslatable codon behind it is never read
+                    k0 = next(k for k, cc in enumerate(want_codons) if cc in FM.STOPS and k != len(want_codons) - 1)
+                    wpre = FM.translate("".join(want_codons[:k0 + 1]), tname, strict=True)
+                    if wpre is not None:
+                        judge("cds.translate", ("translate-truncated-before-ambiguous-codon", tname), res, exc, lambda r: str(r) == "".join(wpre),
+                              got=None if exc else str(res), want="".join(wpre))
                 continue
             judge("cds.translate", ("translate", tname, trunc), res, exc, lambda r: str(r) == "".join(wprot), got=None if exc else str(res),
                   want="".join(wprot) if wprot is not None else None)
+    # one object asked with several tables in turn: every answer is the table's own (a start-codon substitution made for one table
+    # must not leak into the answer for another)
+    if strict_ok and mc:
+        for order in (("PROKARYOTE", "DEFAULT"), ("STANDARD", "DEFAULT", "PROKARYOTE"), ("DEFAULT", "STANDARD", "DEFAULT")):
+            shared = _mk(blocks, strand, frames, genome)
+            for step, tname in enumerate(order):
+                res, exc = ctx.call(shared.translate, translation_table=TranslationTable[tname])
+                wprot = FM.translate(mseq, tname, strict=True)
+                judge("cds.translate", ("same-object-table-sequence", "-".join(order), step), res, exc, lambda r: str(r) == "".join(wprot),
+                      got=None if exc else str(res), want="".join(wprot))
     # non-strict
     c4 = _mk(blocks, strand, frames, genome)
     res, exc = ctx.call(c4.translate, strict=False)
